@@ -53,14 +53,19 @@ PROPS = {
         technique="runtime monitoring under the baton scheduler: shadow lifecycle state per slot fed by state-change hooks (transition relation), buffer access windows (builder/TX/RX/reader) and ownership generations checked on every event",
         level_text=("Seeded + systematic (all single/double pre-emption placements over the first ~260 steps of small 1-2 slot configurations) exploration of interleavings with send failures (error/partial), duplicate and late responses and abandonment in every non-inside state. "
                     "Monitors: every observed state change must be in the documented lifecycle relation; a window onto a slot's buffer may not open while another party's window is open; a slot may not be re-initialised while any handle of the previous request (created frame, future, TX/RX claim, received frame, view) is alive. Held = no such event on the executions produced."),
-        level_note="Exact because the baton serialises actors (shadow state == real state, asserted). Weak-memory-only races are outside the baton's reach; the Miri and ThreadSanitizer runs of the free-running variant cover what they can.",
+        level_note="Exact because the baton serialises actors (shadow state == real state, asserted). Weak-memory-only races are outside the baton's reach; those are the business of the free-running variant (c02free: 3-5 OS threads, no baton) run under ThreadSanitizer (both tiers) and under Miri's race detector / Stacked Borrows / weak-memory emulation (both tiers, a different Miri scheduler seed and pre-emption rate per shard), where a tool report is the violation.",
         rule="case = one execution; non-trivial and distinct as for C01 (hash of event trace + schedule); aux_distinct = distinct slot-state vectors observed",
         assumptions=["abandonment only while neither TX nor RX is inside the slot (C06 covers the rest)", "sequentially consistent interleavings"],
         min_distinct=dict(quick=10000, thorough=300000),
-        required_counters=["send_failures", "requests_abandoned", "responses_duplicated", "access_windows", "transition.swap:Sending->Sendable", "transition.swap:Sent->None", "transition.swap:Created->None", "cfg.policy.preempt-at"],
+        required_counters=["send_failures", "requests_abandoned", "responses_duplicated", "access_windows", "transition.swap:Sending->Sendable", "transition.swap:Sent->None", "transition.swap:Created->None", "cfg.policy.preempt-at", "free.requests_completed", "free.requests_abandoned", "free.view_checks"],
         runs=[
             native("sched-release", "c01", "release", args={"family": "c02", "scale-pct": dict(quick=500, thorough=200)}),
             native("sched-debug", "c01", "debug", args={"family": "c02", "scale-pct": dict(quick=60, thorough=10)}),
+            # free-running OS threads (no baton) under ThreadSanitizer: real weak-memory executions
+            native("free-tsan", "c02free", "tsan", args={"reqs": dict(quick=12, thorough=40)}, shards=dict(quick=8, thorough=16)),
+            # the same workload, tiny, under Miri (data-race detector + Stacked Borrows + weak-memory emulation),
+            # a different Miri scheduler seed and pre-emption rate per shard
+            native("free-miri", "c02free", "miri", args={"reqs": dict(quick=3, thorough=4), "scale-pct": dict(quick=50, thorough=60)}, shards=16, timeout=7200),
         ],
     ),
     "C03": dict(
